@@ -6,7 +6,7 @@ FLAG_POOL = ["\\Seen", "\\Flagged", "\\Answered", "\\Draft", "\\Deleted", "$Forw
 DEFAULT_WEIGHTS = {
     "append": 10, "store_del": 8, "store": 6, "uid_store": 4, "expunge": 6, "uid_expunge": 3, "copy": 5, "uid_copy": 3, "move": 4, "uid_move": 2,
     "noop": 8, "check": 3, "select": 4, "examine": 2, "close": 2, "unselect": 2, "idle": 3, "deliver": 5, "fetch": 4, "fetch_body": 3, "uid_fetch": 3,
-    "advance": 3, "observe": 0, "restart": 0, "create": 0, "delete": 0, "rename": 0, "rename_inbox": 0, "probe_pairs": 0, "search_flag": 0, "subscribe": 0,
+    "advance": 3, "observe": 0, "restart": 0, "create": 0, "delete": 0, "rename": 0, "rename_inbox": 0, "probe_pairs": 0, "search_flag": 0, "subscribe": 0, "deliver_stalled": 0,
 }
 
 
@@ -35,6 +35,56 @@ def rand_positions(rnd, n, allow_all=True):
         return list(range(1, n + 1))
     k = rnd.randint(1, n)
     return sorted(rnd.sample(range(1, n + 1), k))
+
+
+async def deliver_while_executing(w: World, rnd, ss):
+    """An extra client (not part of the model) starts a command on the
+    mailbox `ss` has selected and then reads slowly, which keeps that command
+    executing -- so the management task does not resync; meanwhile the MH agent
+    delivers, and `ss` runs a flag-changing command that rewrites
+    .mh_sequences.  The delivery must later be announced with exactly the
+    agent's flags."""
+    import asyncio
+
+    name = ss.selected
+    b = w.boxes[name]
+    await w.learn_uids(b)
+    known = [m.uid for m in b.msgs if m.uid is not None]
+    x = w.rig.session("X")
+    r = await x.cmd("EXAMINE " + ("inbox" if name == "INBOX" else __import__("asimap_verif.history", fromlist=["wire_name"]).wire_name(name)))
+    if not r.ok:
+        return
+    ev = asyncio.Event()
+    x.writer.stall_ev = ev
+    await x.cmd(rnd.choice(["FETCH 1 BODY.PEEK[]", "FETCH 1:* (FLAGS BODY.PEEK[HEADER])", "UID SEARCH ALL", "FETCH 1:* (UID INTERNALDATE)"]), wait=False)
+    await w.rig.settle()
+    w.no_probe = True
+    try:
+        unseen = [rnd.random() < 0.6 for _ in range(rnd.randint(1, 2))]
+        w.deliver(name, len(unseen), unseen=unseen)
+        w.stats["deliveries_during_executing_command"] += 1
+        # address a message the model already knows by UID (inside the window
+        # nothing may be probed, and the view can grow under our feet)
+        kind = rnd.choice(["store", "store", "store_del", "fetch_seen"])
+        if known:
+            target = [rnd.choice(known)]
+            if kind == "store":
+                await w.op_store(ss, target, rnd.choice(["add", "remove", "replace"]), [rnd.choice(["\\Flagged", "\\Answered", "kw1", "\\Seen"])], silent=rnd.random() < 0.3, uid_mode=True)
+            elif kind == "store_del":
+                await w.op_store(ss, target, "add", ["\\Deleted"], uid_mode=True)
+            else:
+                await w.op_fetch(ss, target, "UID BODY[]", sets_seen=True, uid_mode=True)
+    finally:
+        w.no_probe = False
+        ev.set()
+        x.writer.stall_ev = None
+    await w.rig.settle()
+    x.pump()
+    if x.writer.closed:
+        w.stats["stalled_client_dropped"] += 1
+    else:
+        await x.cmd("LOGOUT")
+    await w.rig.advance(6)
 
 
 async def step(w: World, rnd, weights, names, opts):
@@ -126,6 +176,8 @@ async def step(w: World, rnd, weights, names, opts):
         us = [m.uid for m in b.msgs if m.uid is not None]
         if us:
             await w.op_fetch(ss, sorted(rnd.sample(us, rnd.randint(1, len(us)))), "FLAGS BODY.PEEK[HEADER.FIELDS (X-CID)]", uid_mode=True)
+    elif op == "deliver_stalled" and sel and n and not ss.readonly:
+        await deliver_while_executing(w, rnd, ss)
     elif op == "observe":
         await w.observe(full=opts.get("observe_full", False))
     elif op == "restart":
